@@ -8,10 +8,12 @@ import (
 	"errors"
 	"fmt"
 	"io"
+	"math/rand"
 	"regexp"
 	"sort"
 	"strconv"
 	"strings"
+	"testing/fstest"
 
 	"github.com/uhn/ggql/pkg/ggql"
 
@@ -1059,12 +1061,20 @@ func scExec(input sx.S) sx.S {
 			}()
 			switch m := dl[1].(type) {
 			case string:
+				if m == "api" {
+					err = scAPILoad(root, items)
+					break
+				}
 				if m == "syntax" {
 					text += "type {\n"
 				}
 				err = root.ParseString(text)
 			default:
 				k := sx.Int(sx.List(m)[1])
+				if sx.Head(m) == "files" {
+					err = root.ParseFS(scFiles(items, k), "*.graphql")
+					break
+				}
 				if len(text) > 0 {
 					k = k % len(text)
 				}
@@ -1092,6 +1102,32 @@ func scExec(input sx.S) sx.S {
 	return out
 }
 
+// scFiles writes the definitions of one load into 2..4 files (ParseFS reads them in the order of a Go map:
+// any order). Some files end in a comment, some of those without a final line break.
+func scFiles(items []scItem, seed int) fstest.MapFS {
+	r := rand.New(rand.NewSource(int64(seed)))
+	k := 2 + r.Intn(3)
+	parts := make([][]scItem, k)
+	for _, it := range items {
+		j := r.Intn(k)
+		parts[j] = append(parts[j], it)
+	}
+	fsys := fstest.MapFS{}
+	for j, p := range parts {
+		text := scDocText(p)
+		switch r.Intn(4) {
+		case 0:
+			text = strings.TrimRight(text, "\n") + " # the end of file " + strconv.Itoa(j)
+		case 1:
+			text = strings.TrimRight(text, "\n")
+		case 2:
+			text += "# the end of file " + strconv.Itoa(j) + "\n"
+		}
+		fsys["f"+strconv.Itoa(j)+".graphql"] = &fstest.MapFile{Data: []byte(text)}
+	}
+	return fsys
+}
+
 func scValid(input sx.S) bool {
 	l := sx.List(input)
 	if l[0].(string) != "docs" && l[0].(string) != "wfdocs" {
@@ -1104,12 +1140,19 @@ func scValid(input sx.S) bool {
 		}
 		switch m := dl[1].(type) {
 		case string:
-			if m != "ok" && m != "syntax" {
+			if m != "ok" && m != "syntax" && m != "api" {
 				return false
+			}
+			if m == "api" {
+				for _, e := range dl[2:] {
+					if !scAPIExpressible(scItemFromSx(e)) {
+						return false
+					}
+				}
 			}
 		default:
 			ml := sx.List(m)
-			if len(ml) != 2 || ml[0].(string) != "fault" || sx.Int(ml[1]) < 0 || len(dl) < 3 {
+			if len(ml) != 2 || (ml[0].(string) != "fault" && ml[0].(string) != "files") || sx.Int(ml[1]) < 0 || len(dl) < 3 {
 				return false
 			}
 		}
